@@ -11,6 +11,21 @@
 //   opt  <ack> <hex>               TCP with a SACK option carrying arbitrary data bytes (an undecodable option makes
 //                                  AckTracker::process_packet throw malformed_option; Flow::process_packet catches it)
 //   q <seq> <len>                  is_segment_acked
+//   segw <ack> <layout> <plen> [<edge>...]
+//                                  the packet put on the wire by the *reference encoder* below (RFC 793 / RFC 2018,
+//                                  written here independently of libtins' serializer), parsed with TCP(buffer, size)
+//                                  and handed to the tracker.  layout: one letter per option, in order -
+//                                  n NOP, m MSS, w WSCALE, k SACK-permitted, t TIMESTAMP, x kind 30 with 3 bytes,
+//                                  E an END octet, S the SACK option with the given edges, T the same with its last
+//                                  data byte cut off (length 1 + 4k: undecodable), "." no option; END padding to a
+//                                  multiple of 4; <plen> payload bytes.  The answer carries the bytes (hex=...): the
+//                                  Lean reference encoder (Ack/Wire.lean refSegment) must produce the same.
+//   wire <hex>                     arbitrary bytes: TCP(buffer, size) (may throw malformed_packet), then the tracker
+//   icl                            a fresh boost::icl::interval_set<uint32_t> (the container parameter on its own)
+//   ins <lo> <hi> | insro <lo> <hi> | del <lo> <hi> | sub <lo> <hi> | has <lo> <hi> | hasp <p>
+//                                  insert(closed) / insert(right_open) / erase(closed) / operator-=(closed) /
+//                                  contains(set, closed) / contains(set, point) on it; every answer lists the
+//                                  intervals through icl::first / icl::last, iterative_size() and cardinality()
 // All numbers are decimal and are reduced to uint32_t here (the generator uses absolute positions).
 // Every answer: `<tag> ack=<n> ivs=<lo>-<hi>,...` (+ ` acked=<b>` for q, + ` grid=<bits>` after packets), the
 // grid being is_segment_acked on (seq,len) pairs around the ACK, every interval edge and the wrap point.
@@ -83,6 +98,69 @@ static std::string grid(const AckTracker& t) {
     return bits;
 }
 
+// ---------------------------------------------------------------- reference encoder (RFC 793 section 3.1, RFC 2018 section 3)
+static void put16(bytes& b, uint32_t v) { b.push_back(uint8_t(v >> 8)); b.push_back(uint8_t(v)); }
+static void put32(bytes& b, uint32_t v) { put16(b, v >> 16); put16(b, v & 0xffff); }
+
+// returns false when the layout is unknown or the options exceed the 40 bytes a TCP header can carry
+static bool ref_segment(uint32_t ack, const std::string& layout, size_t plen, const std::vector<uint32_t>& edges, bytes& out) {
+    bytes opt;
+    for (char c : layout) {
+        switch (c) {
+            case '.': break;
+            case 'n': opt.push_back(1); break;
+            case 'E': opt.push_back(0); break;
+            case 'm': opt.push_back(2); opt.push_back(4); opt.push_back(0x05); opt.push_back(0xb4); break;
+            case 'w': opt.push_back(3); opt.push_back(3); opt.push_back(7); break;
+            case 'k': opt.push_back(4); opt.push_back(2); break;
+            case 't': opt.push_back(8); opt.push_back(10); put32(opt, 1); put32(opt, 2); break;
+            case 'x': opt.push_back(30); opt.push_back(5); opt.push_back(0xaa); opt.push_back(0xbb); opt.push_back(0xcc); break;
+            case 'S': case 'T': {
+                bytes d;
+                for (uint32_t e : edges) put32(d, e);
+                if (c == 'T') { if (d.empty()) return false; d.pop_back(); }
+                if (d.size() > 253) return false;
+                opt.push_back(5); opt.push_back(uint8_t(d.size() + 2));
+                opt.insert(opt.end(), d.begin(), d.end());
+                break;
+            }
+            default: return false;
+        }
+    }
+    while (opt.size() % 4) opt.push_back(0);
+    if (opt.size() > 40) return false;
+    out.clear();
+    put16(out, 1234); put16(out, 80);                   // source port, destination port
+    put32(out, 1001);                                   // sequence number
+    put32(out, ack);                                    // acknowledgment number
+    out.push_back(uint8_t(((20 + opt.size()) / 4) << 4)); // data offset, reserved
+    out.push_back(0x10);                                // ACK
+    put16(out, 32678); put16(out, 0); put16(out, 0);    // window, checksum, urgent pointer
+    out.insert(out.end(), opt.begin(), opt.end());
+    out.insert(out.end(), plen, uint8_t(0xab));
+    bytes exact(out.begin(), out.end());
+    exact.shrink_to_fit();
+    out.swap(exact);
+    return true;
+}
+
+// ---------------------------------------------------------------- the container parameter on its own
+typedef boost::icl::interval_set<uint32_t> iset_t;
+typedef boost::icl::discrete_interval<uint32_t> dival_t;
+
+static std::string icl_state(const iset_t& s) {
+    std::ostringstream o;
+    o << "ivs=";
+    bool first = true;
+    for (auto& iv : s) {
+        if (!first) o << ",";
+        first = false;
+        o << boost::icl::first(iv) << "-" << boost::icl::last(iv);
+    }
+    o << " n=" << s.iterative_size() << " card=" << boost::icl::cardinality(s);
+    return o.str();
+}
+
 static void set_sack(TCP& tcp, const std::vector<std::string>& w, size_t from) {
     if (w.size() <= from) return;                       // no SACK option at all
     TCP::sack_type edges;
@@ -94,6 +172,8 @@ int main() {
     std::unique_ptr<AckTracker> own(new AckTracker());
     std::unique_ptr<TCPIP::Flow> flow;
     AckTracker* t = own.get();
+    iset_t iclset;
+    std::string hex;                                    // bytes of the current segw line (also shown when it throws)
     // hand a packet to the tracker under test: directly, or through the flow that owns it
     auto deliver = [&](PDU& pdu) {
         if (flow) { flow->process_packet(pdu); t = &flow->ack_tracker(); }
@@ -106,7 +186,39 @@ int main() {
         auto w = words(line);
         if (w.empty()) return "bad-op";
         std::string tag = w[0];
+        hex.clear();
         try {
+            if (w[0] == "icl") { iclset.clear(); return tag + " " + icl_state(iclset); }
+            if ((w[0] == "ins" || w[0] == "insro" || w[0] == "del" || w[0] == "sub" || w[0] == "has") && w.size() >= 3) {
+                uint32_t lo = u32(w[1]), hi = u32(w[2]);
+                if (w[0] == "insro") { iclset.insert(dival_t::right_open(lo, hi)); return tag + " " + icl_state(iclset); }
+                if (lo > hi) return "bad-op";               // the tracker never builds an empty interval
+                if (w[0] == "ins") iclset.insert(dival_t::closed(lo, hi));
+                else if (w[0] == "del") iclset.erase(dival_t::closed(lo, hi));
+                else if (w[0] == "sub") iclset -= dival_t::closed(lo, hi);
+                else return tag + " " + icl_state(iclset) + " r=" + (boost::icl::contains(iclset, dival_t::closed(lo, hi)) ? "1" : "0");
+                return tag + " " + icl_state(iclset);
+            }
+            if (w[0] == "hasp" && w.size() >= 2)
+                return tag + " " + icl_state(iclset) + " r=" + (boost::icl::contains(iclset, u32(w[1])) ? "1" : "0");
+            if (w[0] == "segw" && w.size() >= 4) {
+                std::vector<uint32_t> edges;
+                for (size_t i = 4; i < w.size(); ++i) edges.push_back(u32(w[i]));
+                size_t plen = size_t(std::stoul(w[3]));
+                bytes seg;
+                if (plen > 64 || !ref_segment(u32(w[1]), w[2], plen, edges, seg)) return "bad-op";
+                hex = " hex=" + to_hex(seg);
+                TCP tcp(seg.data(), uint32_t(seg.size()));
+                deliver(tcp);
+                return tag + " " + state(*t) + " grid=" + grid(*t) + hex;
+            }
+            if (w[0] == "wire" && w.size() >= 2) {
+                bytes seg;
+                if (flow || !parse_hex(w[1], seg) || seg.size() > 200) return "bad-op";
+                TCP tcp(seg.data(), uint32_t(seg.size()));
+                deliver(tcp);
+                return tag + " " + state(*t) + " grid=" + grid(*t);
+            }
             if (w[0] == "init" && w.size() >= 3) {
                 flow.reset();
                 own.reset(new AckTracker(u32(w[1]), w[2] == "1"));
@@ -185,7 +297,7 @@ int main() {
             }
         } catch (const std::exception& e) {
             // the tracker may have been updated before the exception left process_packet: show its state
-            return "throw " + exc_name(e) + " " + state(*t);
+            return "throw " + exc_name(e) + " " + state(*t) + hex;
         }
         return "bad-op";
     });
